@@ -39,11 +39,23 @@ AGGS = ["count(*)", "count(i0)", "sum(i0)", "sum(c5)", "avg(i0)", "min(c0)", "ma
         "count(distinct i0)", "sum(i0) over ()", "row_number() over (order by i0)", "i0 / 2", "i0 * 1.5", "c5 + 1", "c5 * c5", "c10 + 1", "i0 || 'x'"]
 
 
+# un-aliased expression columns whose auto-generated name contains an ORDER BY: the name must be the same in description,
+# DictCursor keys and describe(q)
+UNALIASED = [
+    "select c0, row_number() over (order by c0) from tt", "select c0, lag(i0) over (partition by c13 order by c0) from tt",
+    "select c13, listagg(c14, ',') within group (order by c14) from tt group by c13", "select c0, sum(c5) over (order by c0 rows between unbounded preceding and current row) from tt",
+    "select c0 in (select c0 from tt order by c0) from tt", "select percentile_cont(0.5) within group (order by i0) from tt",
+    "select c0, lag(c5) over (partition by c13 order by c0 desc nulls last) from tt", "select first_value(c13) over (order by c0 asc nulls first) from tt",
+    "select c0 + 1, upper(c13), c5 * 2, count(*) over () from tt", "select rank() over (order by c5 desc), dense_rank() over (order by c13) from tt",
+]
+
+
 def type_queries(chk):
     qs = [("column", f"select c{i} from tt", None) for i in range(len(COLUMN_TYPES))]
     qs.append(("all-columns", "select * from tt", None))
     qs += [("expr", f"select {e} as x", None) for e in EXPRS]
     qs += [("agg", f"select {a} as x from tt", None) for a in AGGS]
+    qs += [("unaliased", q, None) for q in UNALIASED]
     decs = [(p, s) for p in range(1, 39) for s in range(0, p + 1)]
     if chk.tier == "quick":
         rnd = random.Random(chk.seed)
@@ -160,6 +172,37 @@ def seedpure_cases():
                      ("description-after-select", ["description", "select c0 from tt"]), ("description-after-sample-seed", ["description", "select c0 from tt sample (50) seed (3)"])]:
         S.append({"kind": "seedpure", "name": name, "op": op})
     return S
+
+
+# qmark parameters handed over as a MUTABLE list that the caller changes afterwards: description must not change
+def mutparams_cases():
+    M = []
+    for name, sql, params, mutations in [
+        ("retype", "select ? as x", [1], [["set", 0, "abc"], ["set", 0, 1.5]]),
+        ("retype-two", "select ? as x, ? as y", [1, "a"], [["set", 1, 2], ["set", 0, "s"]]),
+        ("clear", "select ? as x", ["abc"], [["clear"]]),
+        ("append", "select ? as x", [2.5], [["append", 7]]),
+        ("where-param", "select c0, c13 from tt where c0 = ?", [1], [["set", 0, "zzz"], ["clear"]]),
+    ]:
+        M.append({"kind": "mutparams", "name": name, "sql": sql, "params": params, "mutations": mutations})
+    return M
+
+
+# describe() of statements with side effects: nothing may change (data, catalog, session context, variables)
+def descfx_cases():
+    F = []
+    for mkind, name, sql in [
+        ("statusSelect", "insert", "insert into m1 values (9)"), ("statusSelect", "update", "update m1 set a = 5"), ("statusSelect", "delete", "delete from m1"),
+        ("statusSelect", "truncate", "truncate table m1"), ("statusSelect", "create-table", "create table n1 (a int)"), ("statusSelect", "drop-table", "drop table m1"),
+        ("statusSelect", "create-or-replace", "create or replace table m1 (z varchar)"), ("statusSelect", "create-view", "create view vv as select 1 a"),
+        ("statusSelect", "alter", "alter table m1 add column z int"), ("statusSelect", "create-schema", "create schema s9"), ("statusSelect", "drop-schema", "drop schema s2"),
+        ("statusSelect", "use-schema", "use schema s2"), ("statusSelect", "use-database", "use database db2"), ("statusSelect", "set", "set v1 = 2"), ("statusSelect", "unset", "unset v1"),
+        ("statusSelect", "begin", "begin"), ("statusSelect", "comment", "comment on table m1 is 'x'"),
+        ("statusSelect", "merge", "merge into m1 using (select 1 a) as s on m1.a = s.a when matched then DELETE"),
+        ("statusSelect", "insert-select", "insert into m1 select c0 from tt"), ("query", "select", "select a from m1"), ("query", "ctas-source", "select * from tt"),
+    ]:
+        F.append({"kind": "descfx", "mkind": mkind, "name": name, "sql": sql})
+    return F
 
 
 FINDING_OF_KIND = {"seededQuery": "C06/describe-seeded-query", "rawCommand": "C06/describe-raw-command", "beforeExecute": "C06/describe-before-execute"}
@@ -365,6 +408,88 @@ def _real_reexec(case):
         snowflake.connector.paramstyle = old
 
 
+def _real_mutparams(case):
+    import fakesnow
+    import snowflake.connector
+    old = snowflake.connector.paramstyle
+    snowflake.connector.paramstyle = "qmark"
+    try:
+        with fakesnow.patch():
+            conn = snowflake.connector.connect(database="db1", schema="s1")
+            _fixture(conn)
+            fresh = conn.cursor()
+            fresh.execute(case["sql"], list(case["params"]))
+            want = _meta(fresh.description)
+            cur = conn.cursor()
+            params = list(case["params"])          # the caller's own mutable list
+            cur.execute(case["sql"], params)
+            first = cur.fetchone()
+            reads = []
+
+            def read():
+                try:
+                    reads.append(_meta(cur.description))
+                except Exception as e:
+                    reads.append(f"raises {type(e).__name__}")
+
+            read()
+            for m in case["mutations"]:
+                if m[0] == "set":
+                    params[m[1]] = m[2]
+                elif m[0] == "clear":
+                    params.clear()
+                else:
+                    params.append(m[1])
+                read()
+            rest = cur.fetchall()
+            return {"want": want, "reads": reads, "rows": 1 + len(rest) if first is not None else 0}
+    finally:
+        snowflake.connector.paramstyle = old
+
+
+def _full_state(conn):
+    k = conn.cursor()
+
+    def q(sql):
+        try:
+            k.execute(sql)
+            return [list(map(str, r)) for r in k.fetchall()]
+        except Exception as e:
+            return f"ERR {type(e).__name__}"
+
+    return {"ctx": [conn.database, conn.schema],
+            "var": q("select $v1"),
+            "catalog": q("select 'table' k, database_name d, schema_name s, table_name n, estimated_size z, column_count c from duckdb_tables() where table_name not like '_fs_%' "
+                         "union all select 'view', database_name, schema_name, view_name, 0, 0 from duckdb_views() where not internal and view_name not like '_fs_%' "
+                         "union all select 'schema', database_name, schema_name, '', 0, 0 from duckdb_schemas() where database_name not in ('system', 'temp') order by 1, 2, 3, 4"),
+            "m1": q("select * from db1.s1.m1 order by 1"), "tt": q("select c0, i0 from db1.s1.tt order by 1, 2"),
+            "comments": q("select * from db1.information_schema._fs_tables_ext order by 1, 2, 3"),
+            "where": q("select current_database(), current_schema()")}
+
+
+def _real_descfx(case):
+    import fakesnow
+    import snowflake.connector
+    with fakesnow.patch():
+        conn = snowflake.connector.connect(database="db1", schema="s1")
+        _fixture(conn)
+        for s_ in ["create table m1 (a int)", "insert into m1 values (1), (2)", "create schema s2", "create database db2", "set v1 = 1"]:
+            conn.cursor().execute(s_)
+        before = _full_state(conn)
+        res = {}
+        try:
+            res["describe"] = _meta(conn.cursor().describe(case["sql"]))
+        except Exception as e:
+            res["describe"] = f"raises {type(e).__name__}"
+        try:
+            conn.cursor().execute("rollback")      # a transaction left open by describe("begin") would hide changes from nobody, close it
+        except Exception:
+            pass
+        after = _full_state(conn)
+        res["changed"] = {k: [before[k], after[k]] for k in before if before[k] != after[k]}
+        return res
+
+
 def _real_seedpure(case):
     import fakesnow
     import snowflake.connector
@@ -395,7 +520,7 @@ def _real_seedpure(case):
     return {"with": run(True), "twin": run(False)}
 
 
-def _worker(shard):
+def _worker_raw(shard):
     import fakesnow
     import snowflake.connector
     out = {}
@@ -413,7 +538,26 @@ def _worker(shard):
             out[i] = _real_reexec(c)
         elif c["kind"] == "seedpure":
             out[i] = _real_seedpure(c)
+        elif c["kind"] == "mutparams":
+            out[i] = _real_mutparams(c)
+        elif c["kind"] == "descfx":
+            out[i] = _real_descfx(c)
     return [out[i] for i in range(len(shard))]
+
+
+def _worker(shard):
+    """a case that cannot be completed (the fake raised where it never does on the unchanged tree) is reported, not crashed on"""
+    import traceback
+    try:
+        return _worker_raw(shard)
+    except Exception:
+        out = []
+        for c in shard:
+            try:
+                out.append(_worker_raw([c])[0])
+            except Exception as e:
+                out.append({"harness_exception": f"{type(e).__name__}: {str(e)[:300]}", "trace": traceback.format_exc()[-600:]})
+        return out
 
 
 # ------------------------------------------------------------------------------------------------
@@ -569,17 +713,55 @@ def _check_seedpure(chk, case, real, drv):
                       broken="C06_describe_pure / C06_describe_sends_no_setseed / C06_description_pure (correspondence)")
 
 
+def _check_mutparams(chk, case, real, drv):
+    chk.case(("mutparams", case["name"]), nontrivial=True)
+    chk.count("mutparams")
+    for i, r in enumerate(real["reads"]):
+        if r != real["want"]:
+            done = case["mutations"][:i]
+            chk.violation(f"qmark `{case['sql']}` executed with the caller's list {case['params']!r}; after the caller did {done} to that list (no execute in between), "
+                          f"description read #{i} = {r} but the executed statement's description is {real['want']}", case,
+                          broken="C06_description_stable / C06_description_last_only (correspondence)")
+            return
+
+
+def _check_descfx(chk, case, real, drv):
+    chk.case(("descfx", case["name"]), nontrivial=True)
+    chk.count(f"describe():{case['mkind']}")
+    if real["changed"]:
+        chk.violation(f"cursor.describe(`{case['sql']}`) changed the state: {real['changed']} (describe must not execute the statement)", case,
+                      broken="C06_describe_pure (correspondence)")
+        return
+    model = drv.ask("descr", "dkind", case["mkind"])["describe"]
+    got = "raises" if isinstance(real["describe"], str) else "ofResult"
+    if got == "ofResult":
+        return
+    what = f"cursor.describe(`{case['sql']}`) {real['describe']} instead of returning the description the statement would have (state unchanged)"
+    if model == "raises":
+        chk.finding("C06/describe-non-query", what, case)
+    else:
+        chk.violation(what, case, broken="C06_describe_partial (correspondence with Fs.Descr.describeOf)")
+
+
 def _corpus():
     import json
     d = common.CORPUS / "C06"
     return [json.loads(f.read_text())["case"] for f in sorted(d.glob("*.json"))] if d.is_dir() else []
 
 
-CHECKS = {"type": _check_type, "stmt": _check_stmt, "reexec": _check_reexec, "seedpure": _check_seedpure}
+CHECKS = {"type": _check_type, "stmt": _check_stmt, "reexec": _check_reexec, "seedpure": _check_seedpure, "mutparams": _check_mutparams, "descfx": _check_descfx}
+
+
+def _dispatch(chk, c, r, drv):
+    if isinstance(r, dict) and "harness_exception" in r:
+        chk.violation(f"case {c.get('name', c.get('sql'))!r} ({c['kind']}) could not be completed - the fake raised where it does not on the unchanged tree: "
+                      f"{r['harness_exception']}", {**c, "trace": r["trace"]}, broken="C06 correspondence (case aborted)")
+        return
+    CHECKS[c["kind"]](chk, c, r, drv)
 
 
 def run(chk) -> None:
-    cases = _corpus() + type_queries(chk) + kind_cases() + reexec_cases() + seedpure_cases()
+    cases = _corpus() + type_queries(chk) + kind_cases() + reexec_cases() + seedpure_cases() + mutparams_cases() + descfx_cases()
     chk.rule = ("A: every declared column type, every DECIMAL(p,s) 1<=p<=38 (quick: boundary + 120 sampled; thorough: all 741), 42 expression forms, 21 aggregate/arithmetic "
                 "forms, 6 bound-parameter forms: description vs types.py model on DuckDB's DESCRIBE types, describe(sql), DictCursor keys, width, Python types; "
                 "B: 56 statement kinds (incl. ALTER TABLE/VIEW/SESSION forms) x 3 read points with a twin that never reads description; C: purity snapshots; "
@@ -591,7 +773,7 @@ def run(chk) -> None:
     try:
         for shard, rs in zip(shards, reals):
             for c, r in zip(shard, rs):
-                CHECKS[c["kind"]](chk, c, r, drv)
+                _dispatch(chk, c, r, drv)
     finally:
         drv.close()
     chk.exhaustive = True
@@ -608,6 +790,6 @@ def replay(chk, case) -> None:
     reals = _worker([case])
     drv = common.Driver()
     try:
-        CHECKS[case["kind"]](chk, case, reals[0], drv)
+        _dispatch(chk, case, reals[0], drv)
     finally:
         drv.close()
